@@ -511,10 +511,42 @@ func checkBlockLimits(c blockCase) []vf.Finding {
 	blocks = append(blocks, content...)
 
 	var fs []vf.Finding
+	// encode side: the same two blocks built through the library must come out as these bytes – count bytes AND
+	// contents (a block whose length is right but whose words were written to the wrong places passes a
+	// length-only test)
+	func() {
+		defer func() {
+			if r := recover(); r != nil {
+				fs = append(fs, vf.F("Parameters.Marshal", "marshal-panic", "%d words, %d bytes: %v", c.Words, c.Bytes, r))
+			}
+		}()
+		ep := parameters.NewParameters()
+		ep.AddWordsFromBytesStream(append([]byte{}, words...))
+		ed := datablock.NewData()
+		ed.Add(append([]byte{}, content...))
+		pb, perr := ep.Marshal()
+		db, derr := ed.Marshal()
+		if perr != nil || derr != nil {
+			fs = append(fs, vf.F("Parameters.Marshal", "in-limit-block-refused", "%d words, %d bytes: %v / %v", c.Words, c.Bytes, perr, derr))
+			return
+		}
+		if !bytes.Equal(append(append([]byte{}, pb...), db...), blocks) {
+			at := 0
+			got := append(append([]byte{}, pb...), db...)
+			for at < len(got) && at < len(blocks) && got[at] == blocks[at] {
+				at++
+			}
+			who := "Parameters.Marshal"
+			if at >= len(pb) {
+				who = "Data.Marshal"
+			}
+			fs = append(fs, vf.F(who, "emitted-block-differs", "%d words, %d bytes: %d bytes emitted, %d expected, first difference at offset %d", c.Words, c.Bytes, len(got), len(blocks), at))
+		}
+	}()
 	p := parameters.NewParameters()
 	n, err := safeBlock(p, blocks)
 	if err != nil {
-		return []vf.Finding{vf.F("Parameters.Unmarshal", "well-framed-block-rejected", "%d words, %d bytes: %v", c.Words, c.Bytes, err)}
+		return append(fs, vf.F("Parameters.Unmarshal", "well-framed-block-rejected", "%d words, %d bytes: %v", c.Words, c.Bytes, err))
 	}
 	if n != 1+2*c.Words || int(p.WordCount) != c.Words || !bytes.Equal(p.GetBytes(), words) {
 		fs = append(fs, vf.F("Parameters.Unmarshal", "parameter-block-misframed", "%d words on the wire, decoded %d words (%d bytes), consumed %d bytes", c.Words, p.WordCount, len(p.GetBytes()), n))
